@@ -349,6 +349,29 @@ def block_run(ctx, blines):
                 fails.append(dict(kind="counterexample", case=l, impl=impl1[cid], model=ref, op=op, size=len(l),
                                   oracle=dict(op="sum x_i conj(y_i)", result=ref, line=l[:2000]),
                                   theorem="C07 inner_product is conjugate-linear in the second argument (C07_complex_inner_product_sesquilinear)"))
+    # blocks of complex numbers (static_matrix<complex,b,1> vectors): the inner product of the same numbers grouped into b x 1 blocks
+    # must be the scalar complex inner product (element-wise math::inner_product conjugates its second argument too); seeded C07-7
+    cbl = []
+    for l in blines:
+        cid, op, payload = l.split(" ", 2)
+        if op != "cx.inner": continue
+        n = int(payload.split()[0])
+        for b in (2, 3, 4):
+            if n and n % b == 0: cbl.append(("%s.b%d cxb.inner %d %s" % (cid, b, b, payload), payload, b))
+    if cbl:
+        cimpl = ctx["run_driver"](ctx["cpp"]["kernels_block"], [c[0] for c in cbl], env_extra={"OMP_NUM_THREADS": "1"})
+        for line, payload, b in cbl:
+            cid = line.split(" ", 1)[0]; o = cimpl.get(cid)
+            ctx["stats"]["oracle_checks"] += 1; ctx["stats"]["evaluations"] += 1
+            ctx["stats"]["by_op"]["cxb.inner"] = ctx["stats"]["by_op"].get("cxb.inner", 0) + 1
+            ref = cx_inner_ref(payload)
+            t = payload.split(); first = " ".join([str(b)] + t[1:1 + 2 * b] + [str(b)] + t[2 + 2 * int(t[0]):2 + 2 * int(t[0]) + 2 * b])
+            want = "%s %s" % (ref, cx_inner_ref(first))
+            if o != want:
+                ctx["stats"]["oracle_fail"] += 1
+                fails.append(dict(kind="counterexample", case=line, impl=o, model=want, op="cxb.inner", size=len(line),
+                                  oracle=dict(op="sum x_i conj(y_i) over the flattened complex blocks; first block alone", result=want, line=line[:2000]),
+                                  theorem="C07 inner_product of vectors of complex b x 1 blocks = scalar complex inner product of the same numbers (C07_complex_inner_product_sesquilinear)"))
     if BSTAT:
         ctx["log"].append(("C07 block generators: stored blocks / scalar / diagonal / symmetric; sampled pairs / non-commuting",
                            "%(blocks)d / %(scalar)d / %(diagonal)d / %(symmetric)d; %(pairs)d / %(noncommuting)d" % BSTAT))
